@@ -476,11 +476,11 @@ pub fn obl_all_position(s: &mut Src, ctx: &mut Ctx, mask: u8, posmask: u8) {
 // C15 (std build): expiry with a ghost clock
 // ---------------------------------------------------------------------------------------------
 #[cfg(feature = "std")]
-pub static mut CLOCK: u64 = 0;
+pub static mut CLOCK_MS: u64 = 0;
 
 #[cfg(feature = "std")]
 pub fn now_stub() -> std::time::SystemTime {
-    unsafe { std::time::UNIX_EPOCH + std::time::Duration::from_secs(CLOCK) }
+    unsafe { std::time::UNIX_EPOCH + std::time::Duration::from_millis(CLOCK_MS) }
 }
 
 /// incr_messages refreshes last_time (record level)
@@ -488,7 +488,7 @@ pub fn now_stub() -> std::time::SystemTime {
 pub fn obl_incr_time(s: &mut Src, ctx: &mut Ctx) {
     let now = s.u32() as u64;
     unsafe {
-        CLOCK = now;
+        CLOCK_MS = now * 1000;
     }
     let (pre, vacant) = setup_ghost(s, ctx, KA, false);
     let mut a = Airplanes::new();
@@ -498,38 +498,28 @@ pub fn obl_incr_time(s: &mut Src, ctx: &mut Ctx) {
     vcheck!(ctx, post.num_messages == pre.num_messages + 1 && (r == Added::Yes) == vacant, "[C12] incr_messages counts the frame and reports vacancy");
 }
 
-/// prune at map level: bounded (<= 3 records), last-heard times / threshold / clock concrete
-/// parameters enumerated by the driver around the boundary
+/// prune at map level: bounded (one tracked aircraft + an empty map), clock / last-heard in
+/// MILLISECONDS and threshold in seconds are concrete parameters enumerated by the driver around
+/// the boundary (exactly T, just below, just above, across a whole-second boundary, clock gone
+/// backwards)
 #[cfg(feature = "std")]
-pub fn obl_prune(s: &mut Src, ctx: &mut Ctx, now: u64, t0: u64, t1: u64, t2: u64, thr: u64) {
-    let keys = [KB, KA, KC];
-    let times = [t0, t1, t2];
+pub fn obl_prune(s: &mut Src, ctx: &mut Ctx, now_ms: u64, last_ms: u64, thr: u64) {
     unsafe {
-        CLOCK = now;
+        CLOCK_MS = now_ms;
     }
     let mut a = Airplanes::new();
-    let mut k = 0;
-    while k < 3 {
-        let mut st = AirplaneState::default();
-        st.num_messages = 100 + k as u32;
-        st.last_time = std::time::UNIX_EPOCH + std::time::Duration::from_secs(times[k]);
-        a.0.insert(keys[k], st);
-        k += 1;
-    }
+    let mut st = AirplaneState::default();
+    st.num_messages = 100;
+    st.last_time = std::time::UNIX_EPOCH + std::time::Duration::from_millis(last_ms);
+    a.0.insert(KA, st);
     a.prune(thr);
-    let mut k = 0;
-    let mut kept = 0;
-    while k < 3 {
-        // removed exactly when heard thr or more seconds ago; a clock that went backwards removes
-        let keep = times[k] <= now && now - times[k] < thr;
-        let g = a.get(keys[k]);
-        if keep {
-            kept += 1;
-            vcheck!(ctx, matches!(g, Some(r) if r.num_messages == 100 + k as u32), "[C15] an aircraft heard less than T seconds ago is kept, untouched");
-        } else {
-            vcheck!(ctx, g.is_none(), "[C15] an aircraft last heard T or more seconds ago is removed");
-        }
-        k += 1;
+    // removed exactly when heard thr or more seconds ago; a clock that went backwards removes
+    let keep = last_ms <= now_ms && now_ms - last_ms < thr * 1000;
+    let g = a.get(KA);
+    if keep {
+        vcheck!(ctx, matches!(g, Some(r) if r.num_messages == 100), "[C15] an aircraft heard less than T seconds ago is kept, untouched");
+        vcheck!(ctx, a.len() == 1, "[C15] expiry removes nothing else and adds nothing");
+    } else {
+        vcheck!(ctx, g.is_none() && a.len() == 0, "[C15] an aircraft last heard T or more seconds ago is removed");
     }
-    vcheck!(ctx, a.len() == kept, "[C15] expiry removes nothing else and adds nothing");
 }
